@@ -245,6 +245,13 @@ def run(R):
             R.check(oknf, 'C19.R3', '%s:not_found' % fn, site(b), 'NOT_FOUND on a miss')
             en = b.calls(name='encode')
             R.check(len(en) == 1 and term_contains(b.origin(en[0][1]['args'][0]), lambda x: is_call(x, name='get')), 'C19.R3', '%s:encodes-found' % fn, site(b), 'the found descriptor is encoded')
+            # .. on every path that answers Ok: an Ok that does not come out of the encoder (an empty list for a file "already sent on this
+            # stream", a cached placeholder) is a name that does not resolve
+            if len(en) == 1:
+                oks = [(bb_, i_) for bb_, i_, p_, a_, ops_ in mirlib.aggregates(b, 'result::Result', 'Ok') if flows_to_return(b, p_['l'])]
+                bad_ok = [(bb_, i_) for bb_, i_ in oks if not b.dominates(en[0][0], bb_)]
+                R.check(bool(oks) and not bad_ok, 'C19.R3', '%s:every-Ok-is-the-encoding' % fn, site(b, *(bad_ok[0] if bad_ok else oks[0] if oks else (None,))),
+                        'Ok(..) answers of %s: %d, of which %d are not behind the encoder' % (fn, len(oks), len(bad_ok)))
 
     # ---------------------------------------------------------------- R4 service list
     R.describe('C19.R4', 'service list = declared services when use_all_service_names, else exactly the explicitly chosen names')
@@ -343,3 +350,29 @@ def run(R):
                 ok = got is not None and (got == [callee] if callee else got == [])
                 R.check(ok, 'C19.R5', 'dispatch:%s:%s' % (ver, var), site(d, sws[0]), '%s %s -> %r (required %r)' % (ver, var, got, callee))
             R.eq(sorted(table), sorted(want), 'C19.R5', 'dispatch:%s:variants' % ver, site(d, sws[0]), 'request kinds handled by %s' % ver)
+
+    # ---------------------------------------------------------------- R6 every question of a stream gets its answer
+    R.describe('C19.R6', 'the task behind server_reflection_info (v1 and v1alpha) hands every answer to the response channel with Sender::send(..).await (which waits for room; try_send on the one-slot channel drops the answer of a pipelined question and ends the stream), and after an Ok answer goes back to read the next question')
+    with R.guard('C19.R6'):
+        for ver in ('v1', 'v1alpha'):
+            cands = [bd for bd in refl.bodies if ('server::%s::' % ver) in bd.path and bd.kind in ('coroutine', 'closure') and bd.calls(name='file_by_filename')]
+            if len(cands) != 1:
+                raise CheckError('ANCHOR-MISSING: dispatch body of %s (%d candidates)' % (ver, len(cands)))
+            d = cands[0]
+            R.saw(d)
+            is_resp_tx = lambda t_: 'mpsc' in (t_.get('fn') or '') and 'Sender' in (t_.get('fn') or '')
+            lossy = [(bb, t) for bb, t in d.calls() if is_resp_tx(t) and t.get('name') in ('try_send', 'send_timeout', 'try_reserve', 'try_reserve_owned', 'blocking_send')]
+            sends = [(bb, t) for bb, t in d.calls() if is_resp_tx(t) and t.get('name') == 'send']
+            for bb, t in lossy:
+                R.bad('C19.R6', '%s:answer-sent-with-%s' % (ver, t.get('name')), site(d, bb), 'an answer is offered with %s: when the previous answer has not been taken yet it is dropped' % t.get('name'))
+            R.check(len(sends) >= 1 and not lossy, 'C19.R6', '%s:answers-sent-with-send' % ver, site(d), 'Sender::send sites %d, lossy sends %d' % (len(sends), len(lossy)))
+            nx = [bb for bb, t in d.calls(name='next')]
+            def top_variant(t_):
+                o_ = strip_refs(d.origin(t_['args'][1]))
+                return o_[1].get('variant') if isinstance(o_, tuple) and o_[:1] == ('agg',) else None
+            oks = [(bb, t) for bb, t in sends if top_variant(t) != 'Err']
+            okl = bool(oks) and bool(nx) and all(any(n_ in d.reachable(bb) for n_ in nx) for bb, t in oks)
+            R.check(okl, 'C19.R6', '%s:next-question-read-after-an-Ok-answer' % ver, site(d, oks[0][0]) if oks else site(d), 'send(Ok(..)) sites %d; each can reach the read of the next question: %r' % (len(oks), okl))
+            # every outcome of the dispatch is sent: the Ok answer and the error status
+            errs = [(bb, t) for bb, t in sends if top_variant(t) != 'Ok']
+            R.check(bool(errs), 'C19.R6', '%s:error-status-sent' % ver, site(d), 'a send whose value can be the Err(status) of the dispatch: %d' % len(errs))
